@@ -83,6 +83,18 @@ def same_vector(a, b):
     return "close" if np.abs(a - b).max() <= REL * sc else None
 
 
+def same_vector_nan(a, b):
+    if a.shape != b.shape:
+        return False
+    fa, fb = np.isfinite(a), np.isfinite(b)
+    if not np.array_equal(fa, fb):
+        return False
+    if not fa.any():
+        return True
+    sc = max(np.abs(a[fa]).max(), np.abs(b[fb]).max(), 1e-300)
+    return bool(np.abs(a[fa] - b[fb]).max() <= REL * sc)
+
+
 case_strategy = st.one_of(
     st.tuples(st.just("table"), schemes.schemes(allow_full=True, max_datasets=3)),
     st.tuples(st.just("kinetic"), kinetic.kinetic_cases(max_datasets=2)),
@@ -109,6 +121,7 @@ class Interp:
                 raise Discard(f"scheme cannot be evaluated at x0: {type(e).__name__}")
         self.x0 = self.cap.x0.copy()
         self.seen = []  # (x, value)
+        self.bad = {}
         self.flags = set()
         self.record(self.x0, self.cap(self.x0))
 
@@ -152,6 +165,26 @@ class Interp:
                     self.cap(x)
                 except Exception:  # noqa: BLE001
                     self.flags.add("raised")
+            elif name == "bad":
+                # a (finite) vector that may make the model raise: its outcome - the exception type, or the vector -
+                # must be the same when evaluated again, immediately or after other points
+                x = self.x0.copy()
+                if x.size == 0:
+                    return
+                x[op[1] % x.size] *= op[2]
+                key = ("bad", op[1] % x.size, op[2])
+                out = self._outcome(x)
+                if out[0] == "raised":
+                    self.flags.add("raised")
+                    self.flags.add("raised_finite_vector")
+                prev = self.bad.get(key)
+                if prev is None:
+                    self.bad[key] = out
+                    prev = out
+                    out = self._outcome(x)  # immediately again
+                check(prev[0] == out[0] and (prev[1] == out[1] if out[0] == "raised" else same_vector_nan(prev[1], out[1])),
+                      "history.outcome_of_raising_vector_depends_on_history",
+                      lambda: f"x={x.tolist()}: first {prev[0]} {prev[1] if prev[0]=='raised' else ''}, then {out[0]} {out[1] if out[0]=='raised' else ''}")
             elif name == "fresh":
                 x, v0 = self.seen[op[1] % len(self.seen)]
                 with expect_ok("fresh.setup"):
@@ -169,6 +202,12 @@ class Interp:
         now = snapshot(self.scheme)
         for part in ("parameters", "model", "data"):
             check(now[part] == self.snap[part], f"inputs.{part}_changed", lambda: f"after {op}")
+
+    def _outcome(self, x):
+        try:
+            return ("value", self.cap(x))
+        except Exception as e:  # noqa: BLE001
+            return ("raised", type(e).__name__)
 
     def _compare(self, x, v0, v1, clause):
         s = same_vector(v0, v1)
@@ -226,6 +265,10 @@ class ObjectiveMachine(RuleBasedStateMachine):
     @rule(i=st.integers(0, 7))
     def eval_raises(self, i):
         self._do(["raise", i])
+
+    @rule(i=st.integers(0, 7), f=st.sampled_from([1e4, 1e6, 1e8, -1e3, 1e-8]))
+    def eval_bad(self, i, f):
+        self._do(["bad", i, f])
 
     @rule(i=st.integers(0, 30))
     def fresh(self, i):
